@@ -578,12 +578,12 @@ Proof.
       destruct (rs_err s _ R x Ho H) as [(c0 & l & n & _ & Hw)|(l & k & _ & Hw)]; congruence.
     + rewrite (Fy y n) in *. now apply (rs_err s _ R).
   - intros y c0 l Ho H1 H2. destruct (Nat.eq_dec y x) as [->|n].
-    + rewrite X3. exact Ht.
-    + rewrite (Fy y n) in *. now apply (rs_to s _ R y c0 l).
+    + rewrite X3, Fn. exact Ht.
+    + rewrite (Fy y n) in *. rewrite Fn. now apply (rs_to s _ R y c0 l).
   - intros y c0 l Ho H1 H2. destruct (Nat.eq_dec y x) as [->|n].
     + right. exact X4.
     + rewrite (Fy y n) in *. now apply (rs_e0 s _ R y c0 l).
-  - apply (rs_now s _ R).
+  - rewrite Fn. apply (rs_now s _ R).
 Qed.
 
 Lemma rm_idle_decide s v cnt : rs_mono s (idle_decide s v cnt).
